@@ -177,7 +177,10 @@ func VerifCounter(c FlowControlCache) (exists, isNew, event bool, lastSync int64
 		g.lock.Lock()
 		old := cn.stopCh
 		cn.stopCh = make(chan struct{})
-		close(old)
+		func() {
+			defer func() { recover() }() // already closed by a Stop(name) that raced with us: resetCheck is gone anyway
+			close(old)
+		}()
 		g.lock.Unlock()
 	}
 	return true, isNew, len(cn.eventCh) > 0, atomic.LoadInt64(&cn.lastSyncTime)
@@ -269,39 +272,3 @@ func VerifSend(c FlowControlCache, req *proxyv1alpha1.RateLimitAcquireRequest, a
 
 // VerifHasRemote: does the cache hold a remote wrapper?
 func VerifHasRemote(c FlowControlCache) bool { return c.(*flowControlCache).remote != nil }
-
-// VerifDrainStops: every globalCounterManager.Add started a goroutine that calls Stop(name) once the remote wrapper
-// it was given is stopped — asynchronously, by name: run late it would stop the counter of a LATER remote wrapper.
-// After the remote wrapper was stopped the harness waits for those k calls: it offers a dummy counter under the name
-// k times and waits until each has been stopped and removed.
-func VerifDrainStops(c FlowControlCache, k int) bool {
-	fc := c.(*flowControlCache)
-	g, ok := fc.globalCounter.(*globalCounterManager)
-	if !ok {
-		return true
-	}
-	for ; k > 0; k-- {
-		g.lock.Lock()
-		if g.counterMap[fc.name] == nil {
-			g.counterMap[fc.name] = &globalCounter{name: fc.name, stopCh: make(chan struct{}), eventCh: make(chan struct{}, 1), manager: g}
-		}
-		g.lock.Unlock()
-		gone := false
-		for i := 0; i < 3000; i++ {
-			g.lock.Lock()
-			gone = g.counterMap[fc.name] == nil
-			g.lock.Unlock()
-			if gone {
-				break
-			}
-			runtime.Gosched()
-			if i > 1000 {
-				time.Sleep(5 * time.Microsecond)
-			}
-		}
-		if !gone {
-			return false
-		}
-	}
-	return true
-}
